@@ -68,8 +68,11 @@ def one_file(sd, root, step):
         fout.close()
         sizes = block_sizes(path)
         data = open(path, 'rb').read()
-        if len(sizes) != 3 + nrec or sum(sizes) != len(data):
-            raise MachineryError('unexpected block structure %r for %d records' % (sizes, nrec))
+        if sum(sizes) != len(data):
+            raise MachineryError('file is not a sequence of pickles: %r vs %d bytes' % (sizes, len(data)))
+        # (if a record were written as several pickles, len(sizes) > 3 + nrec: the spec then still bounds the
+        # number of records by the number of complete blocks, and a record yielded from only part of its
+        # blocks shows up as "differs from the written one")
         tr = [{'ev': 'File', 'sizes': sizes, 'conv': int(conv)}]
         cpath = os.path.join(w.dir, 'cut.fitinfo')
         offs = list(range(0, len(data), step))
